@@ -73,9 +73,14 @@ def push (s : St) (owner : Owner) (data : Bytes) (link : Option Nat) : St :=
     userLen := if owner = .user then s.userLen + 1 else s.userLen
     nextUid := s.nextUid + 1 }
 
-/-- `send_raw` + `_send_raw`: refused unless CONNECTED; with SM enabled and no `<r/>` outstanding
-    a non-SM element is followed by a linked `<r/>` -/
-def sendRaw (s : St) (owner : Owner) (data : Bytes) : St :=
+/-- `_send_raw` adjusts the owner first: what the library queues before stream management is
+    enabled belongs to the negotiation and is never counted (owner class SM) -/
+def adjustOwner (s : St) (owner : Owner) : Owner :=
+  if owner = .strophe && !s.smEnabled then .smStrophe else owner
+
+/-- `send_raw` + `_send_raw` for an already adjusted owner: refused unless CONNECTED; with SM
+    enabled and no `<r/>` outstanding a non-SM element is followed by a linked `<r/>` -/
+def sendRawCore (s : St) (owner : Owner) (data : Bytes) : St :=
   if !s.connected then s
   else
     let uid := s.nextUid
@@ -83,6 +88,10 @@ def sendRaw (s : St) (owner : Owner) (data : Bytes) : St :=
     if !owner.smBit && s1.smEnabled && !s1.rSent then
       push { s1 with rSent := true } .smStrophe Gen.reqAck (some uid)
     else s1
+
+/-- `send_raw` + `_send_raw` -/
+def sendRaw (s : St) (owner : Owner) (data : Bytes) : St :=
+  sendRawCore s (adjustOwner s owner) data
 
 /-- result of the `while (sq)` loop over the queue -/
 structure LoopOut where
